@@ -349,10 +349,12 @@ PENDING.update({
         locals={"oRule": RULE},
         ensures=[
             # a key of the result is the id of a rule that is not deprecated, and every such rule has its entry
-            "(gr in result) == exists(lambda k: not isinstance(self.rules[k], deprecated_rule.Rule) and self.rules[k].unique_id == gr, 0, len(self.rules))",
+            "implies(gr in result, exists(lambda k: not isinstance(self.rules[k], deprecated_rule.Rule) and self.rules[k].unique_id == gr, 0, len(self.rules)))",
+            "forall(lambda k: implies(not isinstance(self.rules[k], deprecated_rule.Rule), self.rules[k].unique_id in result), 0, len(self.rules))",
         ],
         loops={1: dict(invariant=[
-            "(gr in dConfiguration) == exists(lambda k: not isinstance(self.rules[k], deprecated_rule.Rule) and self.rules[k].unique_id == gr, 0, _i)",
+            "implies(gr in dConfiguration, exists(lambda k: not isinstance(self.rules[k], deprecated_rule.Rule) and self.rules[k].unique_id == gr, 0, _i))",
+            "forall(lambda k: implies(not isinstance(self.rules[k], deprecated_rule.Rule), self.rules[k].unique_id in dConfiguration), 0, _i)",
             "forall(lambda k: forall(lambda m: self.rules[k].configuration[m] in self.rules[k].__dict__, 0, len(self.rules[k].configuration)), 0, len(self.rules))",
             "forall(lambda k: dConfiguration is not self.rules[k].__dict__, 0, len(self.rules))",
         ])},
